@@ -339,7 +339,7 @@ theorem extractKWA_trailing_aggregate (cmd : List Bytes) (i : Nat)
 theorem zinter_zunion_never_panic (inter : Bool) (c : Ctx) (cmd : List Bytes) (s : State)
     (hh : isModifierTok (cmd.headD []) = false) (w : String) :
     ((handleZCombine inter false c cmd).run c s).2 ≠ .panic w :=
-  noPanic_run c _ s (handleZCombine_noPanic inter false c cmd hh (fun h => by cases h)) w
+  zNoPanic_run c _ s (handleZCombine_noPanic inter false c cmd hh (fun h => by cases h)) w
 
 /-- **… nor ZINTERSTORE / ZUNIONSTORE**, provided the destination is not spelled like the command word (the handler
     deletes every token equal to the destination from the command before parsing it — class
@@ -347,7 +347,7 @@ theorem zinter_zunion_never_panic (inter : Bool) (c : Ctx) (cmd : List Bytes) (s
 theorem zinterstore_zunionstore_never_panic (inter : Bool) (c : Ctx) (cmd : List Bytes) (s : State)
     (hh : isModifierTok (cmd.headD []) = false) (hd : cmd.headD [] ≠ cmd.getD 1 []) (w : String) :
     ((handleZCombine inter true c cmd).run c s).2 ≠ .panic w :=
-  noPanic_run c _ s (handleZCombine_noPanic inter true c cmd hh (fun _ => hd)) w
+  zNoPanic_run c _ s (handleZCombine_noPanic inter true c cmd hh (fun _ => hd)) w
 
 /-- the proviso on the destination is needed: the filtered command starts with an option word -/
 theorem zstore_destination_is_command_word_witness :
